@@ -962,12 +962,12 @@ impl Argument {
             }) => {
                 if let Some(value) = self.value_as_f64() {
                     match offset {
-                        FixedPointValue::I32(v) => {
-                            Some((value * *quantization as f64) as u64 + *v as u64)
-                        }
-                        FixedPointValue::I64(v) => {
-                            Some((value * *quantization as f64) as u64 + *v as u64)
-                        }
+                        FixedPointValue::I32(v) => ((value * *quantization as f64) as i128)
+                            .checked_add(*v as i128)
+                            .and_then(|sum| u64::try_from(sum).ok()),
+                        FixedPointValue::I64(v) => ((value * *quantization as f64) as i128)
+                            .checked_add(*v as i128)
+                            .and_then(|sum| u64::try_from(sum).ok()),
                     }
                 } else {
                     None
